@@ -1,6 +1,8 @@
 import struct
 import logging
+import math
 import os
+import re
 from datetime import datetime
 from enum import Enum
 from random import Random
@@ -333,6 +335,12 @@ class TerminalDevice(Device):
         self.cpu.push(CellType.STRING, result)
 
     def _exec_input(self):
+        # python's int() and float() also accept forms like '1_0',
+        # 'nan' and 'inf' which are not numbers in BASIC.
+        int_re = re.compile(r'[+-]?[0-9]+')
+        float_re = re.compile(
+            r'[+-]?([0-9]+[.]?[0-9]*|[.][0-9]+)([eE][+-]?[0-9]+)?')
+
         def push_vars(string, var_types):
             values = string.split(',')
             values = [v.strip() for v in values]
@@ -343,6 +351,10 @@ class TerminalDevice(Device):
             # validated, so a rejected line leaves nothing on the stack
             cells = []
             for v, vtype in reversed(list(zip(values, var_types))):
+                if vtype in (1, 2) and not int_re.fullmatch(v):
+                    return False
+                if vtype in (3, 4) and not float_re.fullmatch(v):
+                    return False
                 if vtype == 1:  # INTEGER
                     try:
                         v = int(v)
@@ -364,7 +376,8 @@ class TerminalDevice(Device):
                         v = float(v)
                     except ValueError:
                         return False
-                    if not expr.Type.SINGLE.can_hold(v):
+                    if not math.isfinite(v) or \
+                       not expr.Type.SINGLE.can_hold(v):
                         return False
                     cells.append((CellType.SINGLE, v))
                 elif vtype == 4:  # DOUBLE
@@ -372,7 +385,8 @@ class TerminalDevice(Device):
                         v = float(v)
                     except ValueError:
                         return False
-                    if not expr.Type.DOUBLE.can_hold(v):
+                    if not math.isfinite(v) or \
+                       not expr.Type.DOUBLE.can_hold(v):
                         return False
                     cells.append((CellType.DOUBLE, v))
                 elif vtype == 5:  # STRING
